@@ -38,16 +38,16 @@ def values(dtype, pattern, n):
     elif pattern == 'nonmono':
         v = [1, 5, 3, 9, 2, 8][:n]
     elif pattern == 'tol':
-        v = [1.0, 2.0, 3.0078125, 4.0, 5.0][:n] if isf else None      # 3.0078125 = 3 + 2^-7, exact in float32
+        v = [1.0, 2.0, 3.0078125, 4.0, 5.0, 6.0][:n] if isf else None      # 3.0078125 = 3 + 2^-7, exact in float32
     elif pattern == 'outside':
-        v = [1, 2, 4, 5, 7][:n]
+        v = [1, 2, 4, 5, 7, 8][:n]
     elif pattern == 'wide':
         if isf:
             v = None        # float differences that overflow are not exactly representable: outside the alphabet
         else:
             bits = DTYPE_SIZES[dtype] * 8
             lo, hi = (0, 2 ** bits - 1) if dtype.startswith('u') else (-2 ** (bits - 1), 2 ** (bits - 1) - 1)
-            v = [lo, hi, lo + 1, hi - 1, lo + 2][:n]
+            v = [lo, hi, lo + 1, hi - 1, lo + 2, hi - 2][:n]
     if v is None:
         return None
     return [float(x) for x in v] if isf else v
@@ -77,12 +77,12 @@ def shards(tier):
 
 
 def bounds(tier):
-    return {'rows': [1, 2, 5], 'windows': 'all 0<=from<to<=R for R<=2; {(0,R),(1,R),(0,R-1),(1,3),(2,3)} for R=5',
+    return {'rows': [1, 2, 5] if tier == 'quick' else [1, 2, 3, 5, 6], 'windows': 'all 0<=from<to<=R for R<=2; {(0,R),(1,R),(0,R-1),(1,3),(2,3)} for R=5',
             'second_write': ['none', 'window', 'data', 'dtype']}
 
 
 def cases(shard, tier):
-    for n in (1, 2, 5):
+    for n in ((1, 2, 5) if tier == 'quick' else (1, 2, 3, 5, 6)):
         if values(shard['dtype'], shard['pattern'], n) is None:
             continue
         wins = [(0, None)]
@@ -90,9 +90,11 @@ def cases(shard, tier):
             wins += [(0, 1), (1, 2)]
         if n == 5:
             wins += [(1, None), (0, 4), (1, 3), (2, 3)]
+        if tier != 'quick' and n >= 3:
+            wins = [(0, None)] + [(f, t) for f in range(n) for t in range(f + 1, n + 1) if (f, t) != (0, n)]
         for (f, t), user, it in itertools.product(wins, USER, ITYPE):
             seconds = ['none']
-            if user == 'none' and (f, t) == (0, None) and n == 5:
+            if user == 'none' and (f, t) == (0, None) and n >= 5:
                 seconds += ['window', 'data', 'dtype']
             for second in seconds:
                 yield dict(shard, n=n, frm=f, to=t, user=user, itype=it, second=second)
